@@ -385,3 +385,46 @@ def build_T11g(tree):
 
 
 TARGETS['T11g'] = {'file': 'io.py', 'build': build_T11g}
+
+
+def build_T12b(tree):
+    """frame.decode_frame, everything but the native 1-bit branch: the one-frame dataset handed to pydicom - which attribute
+    is set from which parameter, under which condition; the pixel data element."""
+    fn = find_func(tree, 'decode_frame')
+    body = [x for x in fn.body if not (isinstance(x, ast.Expr) and isinstance(x.value, ast.Constant))]
+    rows = []
+    conv = {}
+
+    def walk(stmts, cond):
+        for st in stmts:
+            if isinstance(st, ast.Assign) and len(st.targets) == 1:
+                t = ast.unparse(st.targets[0])
+                v = ast.unparse(st.value)
+                if t.startswith('ds.') and t.count('.') == 1:
+                    rows.append((t[3:], v, cond))
+                elif isinstance(st.targets[0], ast.Name):
+                    conv.setdefault(t, []).append(v)
+            elif isinstance(st, ast.If):
+                c = ast.unparse(st.test)
+                if c.startswith('bits_allocated == 1 and'):
+                    continue                                  # native 1-bit branch: target T12
+                walk(st.body, (cond + ' and ' if cond else '') + c)
+                walk(st.orelse, (cond + ' and ' if cond else '') + 'not (' + c + ')')
+    walk(body, '')
+    last = [ast.unparse(x) for x in body[-2:]]
+    if last != ['array = ds.pixel_array', 'return array']:
+        raise Unsupported('decode_frame no longer returns ds.pixel_array of the one-frame dataset')
+    if not rows:
+        raise Unsupported('decode_frame: no attribute of the one-frame dataset found')
+    text = ('/-- `decode_frame` (not the native 1-bit branch): attribute of the one-frame dataset handed to pydicom, the expression it '
+            'is set to, the condition under which -/\ndef decodeDatasetAttributes : List (String × String × String) :=\n  ['
+            + ',\n   '.join(f'({_q(a)}, {_q(b)}, {_q(c)})' for a, b, c in rows) + ']\n\n'
+            '/-- `decode_frame`: what its parameters are converted with before they are used (name -> expressions assigned to it) -/\n'
+            'def decodeParameterConversions : List (String × List String) :=\n  ['
+            + ',\n   '.join(f'({_q(k)}, [' + ', '.join(_q(x) for x in v) + '])' for k, v in sorted(conv.items())
+                             if k in ('rows', 'columns', 'samples_per_pixel', 'bits_allocated', 'bits_stored', 'index',
+                                      'pixel_representation', 'photometric_interpretation', 'planar_configuration')) + ']')
+    return text, hashlib.sha256(repr((rows, sorted(conv.items()))).encode()).hexdigest()
+
+
+TARGETS['T12b'] = {'file': 'frame.py', 'build': build_T12b}
